@@ -89,8 +89,16 @@ def b_int(interp, args, kwargs, node):
         return mk_int(z3.If(t >= 0, z3.ToInt(t), -z3.ToInt(-t)))
     if isinstance(v, SStr):
         trust(interp, 'A-STRNUM: int(s) is an uninterpreted partial parse (int_parses/int_parse)')
-        if interp.ex.branch(uf('int_parses', S, B)(v.t)):
-            return mk_int(uf('int_parse', S, I)(v.t))
+        parses, parse = uf('int_parses', S, B), uf('int_parse', S, I)
+        t = v.t
+        rest = z3.SubString(t, 1, z3.Length(t) - 1)
+        trust(interp, 'A-INTPARSE: int(s) of an ASCII digit string (optionally signed) is its decimal value '
+                      '(SMT str.to_int)')
+        interp.ex.add_axiom(z3.Implies(z3.StrToInt(t) >= 0, z3.And(parses(t), parse(t) == z3.StrToInt(t))))
+        interp.ex.add_axiom(z3.Implies(z3.And(z3.PrefixOf(z3.StringVal('-'), t), z3.StrToInt(rest) >= 0),
+                                       z3.And(parses(t), parse(t) == -z3.StrToInt(rest))))
+        if interp.ex.branch(parses(t)):
+            return mk_int(parse(t))
         interp.raise_exc('ValueError', 'invalid literal for int()', node)
     if isinstance(v, (int, float, str)):
         try:
